@@ -250,21 +250,85 @@ def _merge_copy(fnode, stmts):
     return False
 
 
+def scalar_allocators(tree):
+    """names of module-level one-argument helpers that ARE PrivValBool written by hand (lemma (D), scalar form):
+           def h(v):  [if v != 0 and v != 1: raise]  b = PrivVal(v | parse_boolean(v));  booleanity(b);  return LinCombBool(b, False)
+       the refusal of non-bits is required: either the explicit test or parse_boolean (which raises for anything but a bit)"""
+    out = set()
+    for f in tree.body:
+        if not (isinstance(f, ast.FunctionDef) and len(f.args.args) == 1 and not f.args.vararg and not f.args.kwarg and not f.decorator_list):
+            continue
+        v = f.args.args[0].arg
+        body = [s for s in f.body if not isinstance(s, (ast.Import, ast.ImportFrom)) and not (isinstance(s, ast.Expr) and isinstance(s.value, ast.Constant))]
+        refused = False
+        if body and _is_refusal(body[0], v):
+            refused = True
+            body = body[1:]
+        if len(body) != 3:
+            continue
+        a, c, r = body
+        if not (isinstance(a, ast.Assign) and len(a.targets) == 1 and isinstance(a.targets[0], ast.Name) and isinstance(a.value, ast.Call)
+                and norm(a.value.func) == "PrivVal" and len(a.value.args) == 1):
+            continue
+        arg = a.value.args[0]
+        if norm(arg) == v and refused:
+            pass
+        elif isinstance(arg, ast.Call) and norm(arg.func).split(".")[-1] == "parse_boolean" and len(arg.args) == 1 and norm(arg.args[0]) == v:
+            pass
+        else:
+            continue
+        b = a.targets[0].id
+        if not _is_booleanity(c, b):
+            continue
+        if isinstance(r, ast.Return) and r.value is not None and norm(r.value) in ("LinCombBool(%s, False)" % b, "LinCombBool(%s, constrain=False)" % b):
+            out.add(f.name)
+    return out
+
+
+def rewrite_scalar_allocators(fnode, names):
+    """h(E) -> PrivValBool(E) for the helpers found by scalar_allocators"""
+    if not names:
+        return False
+    hit = [False]
+
+    class _T(ast.NodeTransformer):
+        def visit_Call(self, n):
+            self.generic_visit(n)
+            if isinstance(n.func, ast.Name) and n.func.id in names and len(n.args) == 1 and not n.keywords:
+                hit[0] = True
+                return ast.copy_location(ast.Call(func=ast.Name(id="PrivValBool", ctx=ast.Load()), args=n.args, keywords=[]), n)
+            return n
+    if fnode.name in names:
+        return False
+    _T().visit(fnode)
+    if hit[0]:
+        if not any(isinstance(x, ast.ImportFrom) and any(a.name == "PrivValBool" for a in x.names) for x in ast.walk(fnode)):
+            imp = ast.ImportFrom(module="pysnark.boolean", names=[ast.alias(name="PrivValBool", asname=None)], level=0)
+            k = 1 if (fnode.body and isinstance(fnode.body[0], ast.Expr) and isinstance(fnode.body[0].value, ast.Constant)) else 0
+            fnode.body.insert(k, ast.copy_location(imp, fnode.body[0]))
+        ast.fix_missing_locations(fnode)
+    return hit[0]
+
+
 def canon_bit_allocation(fnode):
-    if "PrivVal(" not in norm(fnode) or "LinCombBool(" not in norm(fnode):
-        return False
+    txt_ = norm(fnode)
     changed = False
-    for _ in range(12):
-        hit = False
-        for lst in _lists(fnode):
-            if _rewrite_loops(fnode, lst):
-                hit = True
+    if "PrivVal(" in txt_ and "LinCombBool(" in txt_:
+        for _ in range(12):
+            hit = False
+            for lst in _lists(fnode):
+                if _rewrite_loops(fnode, lst):
+                    hit = True
+                    break
+            if not hit:
                 break
-        if not hit:
-            break
-        changed = True
-    if not changed:
+            changed = True
+    # an allocation `[PrivValBool(v) for v in vals]` / `PrivValBool(x)` that follows a value-preparing chain is moved into the arms
+    # whether it was written by hand that way or came out of the rewrite above
+    if not changed and not any(isinstance(s, ast.Assign) and isinstance(s.value, (ast.ListComp, ast.Call)) and "PrivValBool(" in norm(s.value)
+                               and any(isinstance(p, ast.If) for p in lst) for lst in _lists(fnode) for s in lst):
         return False
+    before_ = ast.dump(fnode)
     # a list that only fed the allocation (vals = [retval]) is dead now
     for lst in _lists(fnode):
         for s in list(lst):
@@ -292,6 +356,8 @@ def canon_bit_allocation(fnode):
                 break
         if not hit:
             break
+    if not changed and ast.dump(fnode) == before_:
+        return False
     # the canonical form names PrivValBool: make it visible the way the library does (a local import)
     if not any(isinstance(x, ast.ImportFrom) and any(a.name == "PrivValBool" for a in x.names) for x in ast.walk(fnode)):
         imp = ast.ImportFrom(module="pysnark.boolean", names=[ast.alias(name="PrivValBool", asname=None)], level=0)
